@@ -619,6 +619,24 @@ class Engine(object):
                     if ok and all(ops_is_boolish(x) for x in rest):
                         results.append((sx, b_and(*rest) if is_and else b_or(*rest)))
                         continue
+                # evaluate the rest under the guard; if that neither forks, raises nor assumes
+                # anything, the whole expression is a boolean term and no fork is needed
+                if ops_is_boolish(v):
+                    s_g = s2.assume(t if is_and else z3.Not(t))
+                    rest_node = ast.BoolOp(op=node.op, values=node.values[i + 1:]) if len(node.values) - i - 1 > 1 else node.values[i + 1]
+                    ast.copy_location(rest_node, node)
+                    n_obl = len(self.obligations)
+                    rr = self.ev(rest_node, s_g)
+                    if (len(rr) == 1 and not isinstance(rr[0][1], Raised) and ops_is_boolish(rr[0][1])
+                            and _same_env(rr[0][0].env, s_g.env)
+                            and rr[0][0].trace is s_g.trace and len(rr[0][0].rand) == len(s_g.rand)):
+                        # facts assumed while evaluating the rest hold under the guard only
+                        g = t if is_and else z3.Not(t)
+                        extra = [z3.Implies(g, f) for f in rr[0][0].pc[len(s_g.pc):]]
+                        s_keep = s2.assume(*extra) if extra else s2
+                        results.append((s_keep, b_and(t, rr[0][1]) if is_and else b_or(t, rr[0][1])))
+                        continue
+                    del self.obligations[n_obl:]
                 # fork on the truth of v
                 cont = s2.assume(t if is_and else z3.Not(t))
                 stop = s2.assume(z3.Not(t) if is_and else t)
@@ -734,6 +752,10 @@ class Engine(object):
             j = z3.Int(fresh_name("m"))
             v, _ = seqs.seq_get(container, j)
             return [(st, z3.Exists([j], z3.And(j >= 0, j < to_int_term(container.length), ops._tb(equal(v, item)))))]
+        if isinstance(container, ObjV):
+            m = self.find_method(container.cls, "__contains__")
+            if m is not None:
+                return [(s_, truth(v_) if not isinstance(v_, Raised) else v_) for s_, v_ in self.call_function(m[0].bind(container), [item], {}, st, node)]
         if isinstance(container, PyObj):
             import enum
             if isinstance(container.obj, type) and issubclass(container.obj, enum.Enum):
@@ -2219,6 +2241,10 @@ class Engine(object):
 
 class UnpackError(Exception):
     pass
+
+
+def _same_env(a, b):
+    return len(a) == len(b) and all(k in b and b[k] is v for k, v in a.items())
 
 
 def ops_is_boolish(v):
